@@ -118,6 +118,17 @@ type VC struct {
 	safetyProp bool
 	axiomText string
 	quickMs   int
+	parent    *VC
+	depth     int
+	inlined   map[string]bool
+	groundUsed map[string]bool
+	rets      []inlRet
+}
+
+type inlRet struct {
+	cur string
+	st  *State
+	res []TV
 }
 
 type rangeInfo struct {
@@ -143,34 +154,54 @@ type TV struct {
 	IsNil bool
 }
 
+// r returns the root frame: inlined callees are translated by child VCs that share the root's output.
+func (vc *VC) r() *VC {
+	for vc.parent != nil {
+		vc = vc.parent
+	}
+	return vc
+}
+
+func (vc *VC) nextN() int {
+	r := vc.r()
+	r.nfresh++
+	return r.nfresh
+}
+
 func (vc *VC) warn(f string, a ...interface{}) {
-	vc.warnings = append(vc.warnings, fmt.Sprintf(f, a...))
+	r := vc.r()
+	r.warnings = append(r.warnings, fmt.Sprintf(f, a...))
 }
 
 func (vc *VC) unsup(f string, a ...interface{}) {
+	r := vc.r()
 	m := fmt.Sprintf(f, a...)
-	for _, u := range vc.unsupported {
+	if vc.parent != nil {
+		m = "in inlined " + shortKey(vc.key) + ": " + m
+	}
+	for _, u := range r.unsupported {
 		if u == m {
 			return
 		}
 	}
-	vc.unsupported = append(vc.unsupported, m)
+	r.unsupported = append(r.unsupported, m)
 }
 
 func (vc *VC) freshName(prefix string) string {
-	vc.nfresh++
-	return q(fmt.Sprintf("%s!%d", prefix, vc.nfresh))
+	return q(fmt.Sprintf("%s!%d", prefix, vc.nextN()))
 }
 
 func (vc *VC) define(prefix, sort, term string) string {
 	n := vc.freshName(prefix)
-	vc.body = append(vc.body, fmt.Sprintf("(define-fun %s () %s %s)", n, sort, term))
+	r := vc.r()
+	r.body = append(r.body, fmt.Sprintf("(define-fun %s () %s %s)", n, sort, term))
 	return n
 }
 
 func (vc *VC) declare(prefix, sort string) string {
 	n := vc.freshName(prefix)
-	vc.body = append(vc.body, fmt.Sprintf("(declare-const %s %s)", n, sort))
+	r := vc.r()
+	r.body = append(r.body, fmt.Sprintf("(declare-const %s %s)", n, sort))
 	return n
 }
 
@@ -189,8 +220,12 @@ func (vc *VC) pos() token.Position {
 }
 
 func (vc *VC) oblige(name, kind, detail, goal string, clause *Clause) {
-	o := &Obligation{Func: vc.key, Name: name, Kind: kind, Detail: detail, Pos: len(vc.body), Guard: vc.cur, Goal: goal, Clause: clause, Site: vc.pos()}
-	vc.obls = append(vc.obls, o)
+	r := vc.r()
+	if vc.parent != nil {
+		detail = "in inlined " + shortKey(vc.key) + ": " + detail
+	}
+	o := &Obligation{Func: r.key, Name: name, Kind: kind, Detail: detail, Pos: len(r.body), Guard: vc.cur, Goal: goal, Clause: clause, Site: vc.pos()}
+	r.obls = append(r.obls, o)
 }
 
 // safety obligation followed by assumption of the checked fact
@@ -322,7 +357,11 @@ func (vc *VC) val(v ssa.Value) string {
 		return n
 	case *ssa.Function:
 		n := q("fn:" + v.String())
-		vc.pre.declFun(n, "() Int")
+		if !vc.pre.funDone[n] {
+			vc.pre.declFun(n, "() Int")
+			vc.pre.declFun("fv_fn", "(Int) Int")
+			vc.pre.axioms = append(vc.pre.axioms, fmt.Sprintf("(assert (and (not (= %s 0)) (= (fv_fn %s) %d)))", n, n, vc.P.fnID(funcKey(v))))
+		}
 		return n
 	case *ssa.Builtin:
 		return "0"
@@ -726,8 +765,16 @@ func NewVC(P *Prog, fn *ssa.Function, prop string) *VC {
 	vc := &VC{P: P, fn: fn, key: funcKey(fn), pre: NewPrelude(), vals: map[ssa.Value]string{}, addrs: map[ssa.Value]*Addr{},
 		tuples: map[ssa.Value][]string{}, reach: map[*ssa.BasicBlock]string{}, outSt: map[*ssa.BasicBlock]*State{},
 		outReach: map[*ssa.BasicBlock]string{}, edge: map[[2]int]string{}, uncontracted: map[string]bool{}, assumedUsed: map[string]bool{},
-		defaultExt: map[string]bool{}, params: map[string]TV{}, prop: prop, rangeIt: map[ssa.Value]*rangeInfo{}}
+		defaultExt: map[string]bool{}, params: map[string]TV{}, prop: prop, rangeIt: map[ssa.Value]*rangeInfo{}, inlined: map[string]bool{}, groundUsed: map[string]bool{}}
 	vc.contract = P.Spec.Contracts[vc.key]
+	return vc
+}
+
+// NewVCFor creates the verification unit of one contract (a plain contract or one behaviour).
+func NewVCFor(P *Prog, c *Contract, prop string) *VC {
+	vc := NewVC(P, P.Funcs[c.Target], prop)
+	vc.contract = c
+	vc.key = c.Key
 	return vc
 }
 
@@ -776,7 +823,7 @@ func (vc *VC) Generate() (err error) {
 		}
 	}
 	vc.oblige("cover:entry", "cover", "function entry reachable under requires", "true", nil)
-	vc.obls[len(vc.obls)-1].Cover = true
+	vc.r().obls[len(vc.r().obls)-1].Cover = true
 	vc.entry = vc.st.clone()
 	order := vc.rpo()
 	for _, b := range order {
@@ -1234,8 +1281,17 @@ func (vc *VC) instr(ins ssa.Instruction) {
 	case *ssa.RunDefers:
 		vc.runDefers()
 	case *ssa.MakeClosure:
-		vc.vals[ins] = vc.declare(ins.Name(), "Int")
-		vc.warn("closure value %s is opaque", ins.Name())
+		c := vc.declare(ins.Name(), "Int")
+		vc.vals[ins] = c
+		vc.pre.declFun("fv_fn", "(Int) Int")
+		vc.pre.declFun("fv_recv", "(Int) Int")
+		if f, ok := ins.Fn.(*ssa.Function); ok {
+			if strings.HasSuffix(f.Name(), "$bound") && len(ins.Bindings) == 1 {
+				vc.assume(fmt.Sprintf("(and (not (= %s 0)) (= (fv_fn %s) %d) (= (fv_recv %s) %s))", c, c, vc.P.fnID(funcKey(f)), c, vc.val(ins.Bindings[0])))
+			} else {
+				vc.assume(fmt.Sprintf("(and (not (= %s 0)) (= (fv_fn %s) %d))", c, c, vc.P.fnID(funcKey(f))))
+			}
+		}
 	case *ssa.Go:
 		vc.unsup("go statement")
 	case *ssa.Send, *ssa.Select, *ssa.MakeChan:
@@ -1264,8 +1320,7 @@ func (vc *VC) instr(ins ssa.Instruction) {
 
 func (vc *VC) interiorPtr(a *Addr) string {
 	vc.pre.declFun("iptr", "(Int Int) Int")
-	vc.nfresh++
-	return fmt.Sprintf("(iptr %s %d)", nonEmpty(a.ref, "0"), vc.nfresh)
+	return fmt.Sprintf("(iptr %s %d)", nonEmpty(a.ref, "0"), vc.nextN())
 }
 
 func nonEmpty(s, d string) string {
@@ -1744,8 +1799,15 @@ func (vc *VC) ret(ins *ssa.Return) {
 	for i, r := range ins.Results {
 		res = append(res, TV{T: vc.val(r), Ty: sig.Results().At(i).Type()})
 	}
+	if vc.parent != nil {
+		// inlined callee: record the return point, the caller merges them
+		vc.rets = append(vc.rets, inlRet{cur: vc.cur, st: vc.st, res: res})
+		vc.outSt[b] = vc.st
+		vc.outReach[b] = "false"
+		return
+	}
 	vc.oblige(fmt.Sprintf("cover:return%d", vc.retCount), "cover", "return reachable", "true", nil)
-	vc.obls[len(vc.obls)-1].Cover = true
+	vc.r().obls[len(vc.r().obls)-1].Cover = true
 	if c != nil {
 		env := vc.entryEnv(vc.st, vc.entry)
 		vc.bindResults(env, sig, res)
